@@ -9,7 +9,8 @@ TLC : enumerates (column type, Python value) cases: 20 scalar column types x bou
       comes in (datetime.date / util.Date / 'yyyy-mm-dd' / datetime; naive / aware / date; ...), lists, sets, maps, tuples,
       user defined types and nested composites of them; invariants on the specification: the bytes of a timestamp decode
       to the instant, the UTC reading of the instant denotes it again (ExactInstant), a reading without an exact
-      millisecond lies between the two accepted neighbours, all forms of a date / time denote Calendar.tla's value.
+      millisecond lies between the two accepted neighbours, all forms of a date / time denote Calendar.tla's value,
+      conversions sharing one zone object do not influence each other (CallsIndependent).
 Bind: every case is built as a real cqlengine column and a real Python value; column.to_database(value) (also after
       column.validate, the Model.save path), serialised by the core type at protocol v4 and v5, must be the
       specification's bytes - and so must the core type's serialize of the ORIGINAL value.
@@ -25,7 +26,9 @@ SCOPE = ("ENUMERATED, not proved for all inputs: every cqlengine column class th
          "type. DateTime: readings on 7 (14) dates from 0001-01-01 to 9999-12-31 (incl. 1969-12-31, 1970-01-01, a summer and an "
          "autumn-transition date) x 5 (6) times of day x 9 (15) microsecond values (0, 1, 999, 1000, 1999, 999000, 999500, "
          "999999, ...) x {naive, 4 (8) fixed offsets incl. negative and +05:30, 2 (6) zones whose offset at the reading differs "
-         "from their offset on 1970-01-01} and plain dates; the zone is a tzinfo that answers with the offset in force at the "
+         "from their offset on 1970-01-01} and plain dates; plus 18 (56) SEQUENCES of 2 (3) conversions whose datetimes share ONE "
+         "tzinfo object with different offsets at the readings (winter / summer, both passes of the repeated hour, a zone that "
+         "changed its standard offset), converted one after the other by the same column; the zone is a tzinfo that answers with the offset in force at the "
          "reading and with the 1970 offset for 1970-01-01 - real tz databases, readings between the enumerated ones, arbitrary "
          "microsecond counts are not enumerated. Integers: wide values at byte-length boundaries only. Float / Double: 11 "
          "IEEE bit patterns each (layout only: the rounding of arbitrary doubles to single precision is not covered). "
@@ -62,18 +65,22 @@ def key_of(st):
 
 
 def nontrivial(st):
+    if CV.is_calls(st["ty"]):
+        return True
     if CD.is_scalar(st["ty"]):
         return len(st["enc"]) > 1
     return len(st["val"]) > 0
 
 
 def size_of(st):
-    return (CD.depth(st["ty"]), len(st["enc"]), key_of(st))
+    return (0 if CV.is_calls(st["ty"]) else CD.depth(st["ty"]), len(st["enc"]), key_of(st))
 
 
 def crosscheck(cases):
     for s in cases:
-        if CD.is_scalar(s["ty"]):
+        if CV.is_calls(s["ty"]):
+            CV.crosscheck_calls(s)
+        elif CD.is_scalar(s["ty"]):
             CV.crosscheck_leaf(s["ty"][0], s["val"], bytes(s["enc"]).hex())
 
 
@@ -112,7 +119,9 @@ def selftest(ctx, env, cases, leaf_encs):
     bad_l = dict(lst, enc=lst["enc"][:4] + lst["enc"][12:] + lst["enc"][4:12])     # "the list in the other order"
     tup = next(s for s in cases if s["ty"][0] == "tuple" and len(s["ty"][1]) == 2 and s["val"][0] and not s["val"][1])
     bad_t = dict(tup, enc=tup["enc"][:-4] + [0, 0, 0, 0])                           # "a null field is an empty value"
-    noticed = [differs(ts, bad_ts), differs(d, bad_d), differs(lst, bad_l), differs(tup, bad_t)]
+    calls = next(s for s in cases if CV.is_calls(s["ty"]) and s["enc"][:8] != s["enc"][8:16])
+    bad_c = dict(calls, enc=calls["enc"][8:16] + calls["enc"][:8] + calls["enc"][16:])   # "each stored as the other's instant"
+    noticed = [differs(ts, bad_ts), differs(d, bad_d), differs(lst, bad_l), differs(tup, bad_t), differs(calls, bad_c)]
     try:                                         # a wrong wide number in the specification's answer: the cross-check
         CV.crosscheck_leaf("timestamp", ts["val"], bytes(flip(ts["enc"])).hex())
         noticed.append(False)
@@ -128,7 +137,7 @@ def report(ctx, groups, leaf_encs):
         members = groups[sig]
         st, msg, detail = min(members, key=lambda m: size_of(m[0]))
         kinds = sorted({CV.cql_name(m[0]["ty"]) for m in members})
-        used = {} if CD.is_scalar(st["ty"]) else {k: sorted(leaf_encs[k]) for k in {CV.leaf_key(a, b) for a, b in CV.leaves_of(st["ty"], st["val"])}}
+        used = {} if CD.is_scalar(st["ty"]) or CV.is_calls(st["ty"]) else {k: sorted(leaf_encs[k]) for k in {CV.leaf_key(a, b) for a, b in CV.leaves_of(st["ty"], st["val"])}}
         ctx.violation("%s; %d cases in column types %s%s; smallest: %s"
                       % (msg, len(members), kinds[:6], " ..." if len(kinds) > 6 else "", {k: v for k, v in detail.items() if k != "value"}),
                       replay={"state": st, "cases": len(members), "leaf_encs": used}, signature=sig)
